@@ -17,7 +17,7 @@ ASSUMPTIONS = [
     "bund height of a day = the field management in force that day (season or fallow); bunds <= 1 mm count as none",
     "tolerance 1e-9",
 ]
-BUDGET = {"quick": 280, "thorough": 5000}
+BUDGET = {"quick": 420, "thorough": 5000}
 PROFILE = gen.profile(seasons=(1, 3), max_days=1100, storms=(0, 6), storm_mm=(50, 300), dry_spells=(0, 2), low_ksat=True,
                       p_custom_soil=0.55, p_gw=0.4, gw_shallow=True, p_bunds=0.5, p_fm=0.6, p_ffm=0.4, p_off=0.6,
                       iwc=(("FC", 1), ("WP", 3), ("SAT", 3), ("Pct", 1), ("Num", 2), ("Depth", 2)),
